@@ -52,14 +52,21 @@ def gen_sequence(rng, E, length):
     return seq
 
 
-def run_impl(mesh, fixed, fix_psi, seq):
+def run_impl(mesh, fixed, fix_psi, seq, one_buffer=False):
+    """one_buffer: the caller keeps ONE array and overwrites it in place before every call (the sequence of VALUES
+    is the same; only the identity of the array object differs from passing fresh arrays)"""
     from tdgl.finite_volume.operators import MeshOperators
     from tdgl.solver.options import SparseSolver
 
     mo = MeshOperators(mesh, SparseSolver.SUPERLU, fixed_sites=fixed, fix_psi=fix_psi)
     mo.build_operators()
+    buf = np.empty_like(seq[0])
     for A in seq:
-        mo.set_link_exponents(A)
+        if one_buffer:
+            buf[:] = A
+            mo.set_link_exponents(buf)
+        else:
+            mo.set_link_exponents(A)
     return mo
 
 
@@ -67,6 +74,12 @@ def eval_case(ctx, name, mesh, fixed, fix_psi, seq, with_model=True):
     n, E = len(mesh.sites), len(mesh.edge_mesh.edges)
     mo = run_impl(mesh, fixed, fix_psi, seq)
     fresh = run_impl(mesh, fixed, fix_psi, seq[-1:])
+    # the same history handed over through one reused buffer gives the same operators
+    mo_b = run_impl(mesh, fixed, fix_psi, seq, one_buffer=True)
+    db = max(float(np.abs((mo_b.psi_laplacian - fresh.psi_laplacian)).max()), float(np.abs((mo_b.psi_gradient - fresh.psi_gradient)).max()))
+    if db != 0.0:
+        rp_b = dict(mesh=name, fix_psi=bool(fix_psi), pinned=int(len(fixed)), length=len(seq), difference=db)
+        ctx.fail("refresh!=rebuild:reused-buffer", f"after a history of {len(seq)} potentials passed through one array overwritten in place, the operators differ from a fresh build by {db:.3e}", rp_b)
     L1, L0 = mo.psi_laplacian.toarray(), fresh.psi_laplacian.toarray()
     G1, G0 = mo.psi_gradient.toarray(), fresh.psi_gradient.toarray()
     fail = None
